@@ -128,7 +128,7 @@ def run_property(prop, tier, seed, replay_only=None):
             try:
                 r = kani.run_harness(
                     crate, os.path.join(root, "t_" + h), h,
-                    int(hspec.get("timeout", 300) * scale), hspec.get("mem", 8),
+                    int(hspec.get("timeout", 300) * scale), hspec.get("mem", 8) * 2.5,  # address-space limit; declared mem = expected resident size
                     os.path.join(logs_dir, h + ".log"),
                     memsafe=(tier == "thorough" and hspec.get("memsafe_thorough", False)),
                     extra=hspec.get("extra"), fs=hspec.get("fs", 4096))
